@@ -163,6 +163,10 @@ def check_shape(shape, out):
                             es = elem_shape(shape, idx if shape[0] in ("tuple", "ntuple") else 0)
                             if idx < n:
                                 want = abi_gen.encode(es, v[idx])
+                                if res.verdict == "RESOURCE" and len(want) > 1000:
+                                    # the component does not fit the observation channel (log budget 1024 bytes)
+                                    cnt["not_comparable_resource"] = cnt.get("not_comparable_resource", 0) + 1
+                                    continue
                                 if res.verdict != "APPROVE" or res.logs != [want]:
                                     viol("element %d gave %s %r, expected %s" % (idx, res.verdict, [l.hex() for l in res.logs], want.hex()),
                                          probe, backend, ver, v, idx)
